@@ -21,10 +21,21 @@ def check_handshake(variant, cfg, s, r):
     """-> None or a description of how the run violates the property"""
     ex = s.expect
     ev = r["events"]
-    if ex["outcome"] == "raises":
-        return None
     kinds = [e[0] for e in ev]
     writes = b"".join(e[1] for e in ev if e[0] == "W")
+    if ex["outcome"] == "raises":
+        # a server older than every version the client speaks: whatever the client does, it never answers with a version
+        # above the server's and never reports an established connection
+        if len(writes) >= 12 and writes[:4] == b"RFB " and writes[11:12] == b"\n":
+            try:
+                v = (int(writes[4:7]), int(writes[8:11]))
+            except ValueError:
+                v = None
+            if v is not None and v > tuple(ex["server_version"]):
+                return f"server {ex['server_version']}: the client answered {writes[:12]!r}, a version above the server's"
+        if "Made" in kinds or "Connected" in kinds:
+            return f"server {ex['server_version']} (older than every supported version): the connection was reported as established"
+        return None
     # 1. version reply
     want = b"RFB %03d.%03d\n" % ex["version"]
     if not writes.startswith(want):
